@@ -140,7 +140,7 @@ def meta(tier):
         'functions': loader.functions_encoded(fns), 'sig': sig,
         'bounds': 'order 1..3 (thorough 5); sizes <= 4; ranks <= 3; every subset of summed / contracted modes; tracked norm: arbitrary cores; '
                   'untracked norm (QR sweep): arbitrary cores where every QR input has <= 2 columns or one row/column (exact symbolic QR), see DESIGN 2.5; '
-                  'complex dtype instances decide the conjugation clauses',
+                  'complex dtype instances decide the conjugation clauses; histories norm / set_core / norm on one object',
         'outside': 'IEEE rounding; untracked norm with rank >= 3 bonds; sizes > 4',
         'assumptions': ['symtorch models torch (validated per run against real torch on seeded inputs)',
                         'torch.linalg.qr replaced by an exact symbolic Gram-Schmidt model (sign freedom: positive diagonal of R)',
